@@ -369,8 +369,8 @@ def run_check(modname, tier, seed):
     wall = time.time() - t0
 
     if errors:
-        for i, e in errors:
-            sys.stderr.write("HARNESS-ERROR in shard %d of %s:\n%s\n" % (i, mod.ID, e))
+        for i, e in errors[:2]:
+            sys.stderr.write("HARNESS-ERROR in shard %d of %s (%d shards failed):\n%s\n" % (i, mod.ID, len(errors), e[-1800:]))
         write_evidence(mod, tier, seed, merged, wall, len(violations), dict(extra_cov, harness_errors=len(errors)))
         return 2
 
@@ -418,8 +418,13 @@ def hyp_search(check, strategy, seed, max_examples, shrink=True):
 
     Every random choice comes from Hypothesis; the run is a pure function of (code, seed).
     """
+    import warnings
+
     import hypothesis
     from hypothesis import HealthCheck, Phase, given, settings
+    from hypothesis.errors import HypothesisWarning
+
+    warnings.filterwarnings("ignore", category=HypothesisWarning)
 
     phases = [Phase.generate] + ([Phase.shrink] if shrink else [])
     holder = {}
